@@ -66,6 +66,28 @@ STRENGTHENED = {
               'expression texts over constants of different values',
     'C20_m6': 'sack group: main.hpp including its sibling "types.h", run from several working directories, one of which '
               'holds an unrelated types.h',
+    'C03_m8': 'the reference bytes are also decoded into the one long-lived object of the type, which still holds the '
+              'previous value',
+    'C06_m7': 'AdvTrack: a scalar array and a struct array counted by the same field (cuts on element boundaries)',
+    'C06_m8': 'AdvMac/AdvHosts: array elements made of fixed-size bytes only',
+    'C08_m7': 'canary sequences with optionals whose 8-byte alignment is only visible through one or two typedef levels',
+    'C09_m8': 'NOT REPORTED: needs a limited array whose counter lives in an earlier block, a shape only a patch file or '
+              'the model API can build and the schema IR of this framework cannot express (see DESIGN 9)',
+    'C10_m7': 'half of the array operations on the root message go through the array object obtained the first time '
+              'instead of reading the field again',
+    'C10_m8': 'extend() is also given one and the same message object several times; after every accepted '
+              'extend/add/set/disc the live message must be a tree of its own objects (no object under two paths, none '
+              'shared with a message passed to extend); unions with struct and union arms as array elements',
+    'C12_m8': 'rule breakers with the offending element in the first / a middle position among its siblings',
+    'C14_m7': 'isar constants whose value is a plain negative literal (decimal, hex) and a constant built on one',
+    'C16_m7': 'arrangement two-dirs-mixed: a file names the files of the other directory first (../dK/f) and its own '
+              'siblings afterwards by bare name',
+    'C17_m7': 'isar enumerator values in every integer notation, negatives included (-0x.., -0o.., -0b..)',
+    'C17_m8': 'the isar rendering is cut into inc.xml and a main file that pulls it in through xi:include',
+    'C19_m7': 'fixed, dynamic and greedy arrays of enums in the palette',
+    'C20_m7': 'an input whose base name is no identifier (b-v2.1.prophy)',
+    'C20_m8': 'runs into output directories that already hold same-named files: longer ones that begin like the new '
+              'output, proper prefixes of it, unrelated content',
 }
 
 
@@ -85,7 +107,7 @@ def main():
         files = sorted(set(re.findall(r'^\+\+\+ b/(\S+)', open(os.path.join(d, 'patch.diff')).read(), flags=re.M)))
         last = meta['ran'][-1]
         mechs = last.get('mechanisms') or []
-        det = ('exit %s: ' % last.get('exit')) + ', '.join('`%s`' % m for m in mechs[:2]) if mechs else 'exit %s' % last.get('exit')
+        det = ('exit %s: ' % last.get('exit')) + ', '.join('`%s`' % m for m in mechs[:2]) if mechs else 'exit %s (not reported)' % last.get('exit')
         rows.append((mid, meta['breaks_property'], title.replace('|', '/'), ' '.join(os.path.basename(f) for f in files), det,
                      STRENGTHENED.get(mid, '')))
     print('| change | what it does (files) | reported by the quick check as | added to the check before it reported it |')
